@@ -18,7 +18,7 @@
 
 enum { N_TRY = 1, N_THROW, N_MARK, N_CALL };
 struct PNode { int t; int arg; int body, handler; int next; };      /* indices into nodes[], 0 = none */
-static struct PNode nodes[8192]; static int nn = 1;
+static struct PNode nodes[65536]; static int nn = 1;
 static int tok;
 
 static int parse_list(void);
